@@ -55,6 +55,8 @@ type c04PolyObs struct {
 	Dfs   []int64  `json:"ldfs"`
 	Pr    probeObs `json:"pr"`
 	Boxes int      `json:"boxes"`
+	Far   int      `json:"far"`  // 1: some vertex coordinate exceeds 3e5 in magnitude (a few ulps there are more than the library's 1e-9 clipping tolerance)
+	Cerr  int      `json:"cerr"` // 1: Polygon2D / Mesh2D / Mesh2DSlow refused this simple polygon (constructor error)
 	Snap  int      `json:"snap"` // vertices within 1e-9 of a quadtree box edge coordinate WITHOUT lying on it (snapping band)
 	// report only
 	Desc string      `json:"desc,omitempty"`
@@ -323,6 +325,11 @@ func randomPolygon(r *rand.Rand, fam int) ([]v2.Vec, string) {
 	name := ""
 	cx, cy := r.Float64()*20-10, r.Float64()*20-10
 	scale := math.Pow(10, float64(r.Intn(4)-1))
+	if r.Intn(5) == 0 {
+		// far from the origin: one ulp of a coordinate is then larger than the library's smaller tolerances
+		k := math.Pow(10, 4+2.5*r.Float64())
+		cx, cy = cx*k/10, cy*k/10
+	}
 	star := func(n int, rmin, rmax float64) {
 		ang := make([]float64, n)
 		for i := range ang {
@@ -393,6 +400,23 @@ func randomPolygon(r *rand.Rand, fam int) ([]v2.Vec, string) {
 		}
 		for k := m - 1; k >= 1; k-- {
 			vs = append(vs, v2.Vec{X: cx - (1+r.Float64())*scale, Y: cy + float64(k)*pitch})
+		}
+	case 6:
+		// finely tessellated outlines: thousands of nearly collinear vertices (a circle, or a plate with a dome)
+		name = "fine"
+		n := []int{900, 1500, 3000, 7000, 12000}[r.Intn(5)]
+		rad := []float64{0.05, 0.3, 1, 1}[r.Intn(4)] * scale
+		if r.Intn(2) == 0 {
+			for i := 0; i < n; i++ {
+				a := 2 * math.Pi * float64(i) / float64(n)
+				vs = append(vs, v2.Vec{X: cx + rad*math.Cos(a), Y: cy + rad*math.Sin(a)})
+			}
+		} else {
+			vs = append(vs, v2.Vec{X: cx - rad, Y: cy - rad}, v2.Vec{X: cx + rad, Y: cy - rad})
+			for i := 0; i <= n; i++ {
+				a := math.Pi * float64(i) / float64(n)
+				vs = append(vs, v2.Vec{X: cx + rad*math.Cos(a), Y: cy + 0.6*rad*math.Sin(a)})
+			}
 		}
 	default:
 		name = "gridstar"
@@ -478,14 +502,19 @@ func c04Random(args []string) error {
 		var vs []v2.Vec
 		name := ""
 		for try := 0; ; try++ {
-			vs, name = randomPolygon(r, (idx+try)%6)
-			if simpleEnough(vs) {
+			vs, name = randomPolygon(r, (idx+try)%7)
+			if name == "fine" || simpleEnough(vs) { // "fine" is simple by construction (the test is quadratic)
 				break
 			}
 		}
 		rp, err := buildPoly(vs)
 		if err != nil {
-			fatal("random polygon: %v", err)
+			// a simple polygon that a constructor refuses: an observation, not a machinery failure
+			o := c04PolyObs{Ev: "polyr", Idx: idx, NV: len(vs), Desc: name + " (" + err.Error() + ")", Cerr: 1, Sf: []int{}, Ss: []int{}, Sp: []int{},
+				Ef: []int64{}, Es: []int64{}, Ep: []int64{}, Dfs: []int64{}}
+			o.Pr = probeObs{So: []int{}, Sf: []int{}, Ss: []int{}, Ef: []int64{}, Es: []int64{}, Dfs: []int64{}, Kind: []int{}, Lvl: []int{}}
+			emit(o)
+			continue
 		}
 		if idx%3 == 2 {
 			// move vertices that are not extreme in x / y onto split lines of the real quadtree
@@ -559,6 +588,11 @@ func c04Random(args []string) error {
 		}
 		o.Boxes = len(rp.mesh.Boxes())
 		o.Snap = snapBand(rp)
+		for _, q := range vs {
+			if math.Abs(q.X) > 3e5 || math.Abs(q.Y) > 3e5 {
+				o.Far = 1
+			}
+		}
 		emit(o)
 	}
 	return nil
